@@ -523,3 +523,30 @@ def _(M, a, c): return usize(len(a[0]))
 def _(M, a, c):
     if 'collect::<String>' in c: return ms.m_collect_string(M, a, c)
     it = a[0]; return Native('Vec', b=it.d['b'][it.d['pos']:])
+
+# symbolic indices / bounds into concrete-length sequences
+def concretize(M, v, hi):
+    """v: Int (maybe symbolic, unsigned 64). returns python int in [0,hi] or None if v > hi (forks)"""
+    if not v.sym(): return v.v if v.v <= hi else None
+    if not M.branch(z3.ULE(v.z(), z3.BitVecVal(hi, 64))): return None
+    for k in range(hi + 1):
+        if M.branch(v.z() == z3.BitVecVal(k, 64)): return k
+    raise PathEnd("infeasible")
+@model_re(r'^core::slice::<impl \[.*\]>::get$')
+def _(M, a, c):
+    s, i = a
+    n = len(s)
+    if isinstance(i, Int):
+        k = concretize(M, i, n - 1) if n > 0 else None
+        return some(Ref(s.b, s.lo + k)) if k is not None else NONE()
+    lo = concretize(M, i.fields[0], n)
+    if lo is None: return NONE()
+    hi = concretize(M, i.fields[1], n)
+    if hi is None or lo > hi: return NONE()
+    return some(Slice(s.b, s.lo + lo, s.lo + hi))
+@model_re(r'^<[iu](size|64) as TryInto<[iu](size|64)>>::try_into$')
+def _(M, a, c):
+    m = re.search(r'TryInto<(\w+)>', c); w, s = INT_TY[m.group(1)]; v = a[0]
+    neg = M.binop('Lt', Int(64, True, v.v), Int(64, True, 0)) if True else False
+    if M.branch(neg): return err(Native('TryFromIntError'))
+    return ok(Int(w, s, v.v))
